@@ -30,14 +30,14 @@ Send(r, s) == /\ r \notin DOMAIN sent
               /\ UNCHANGED <<got, scn>>
 \* a backend receives request r (identified by the X-Verif-Req header the client set)
 Upstream(r, u) ==
-    /\ r \in DOMAIN sent /\ r \notin DOMAIN got
+    /\ r \in DOMAIN sent      \* every attempt (failover re-sends the request) must carry the same request
     /\ LET s == sent[r] IN
        /\ u.method = s.method
        /\ u.target = ExpectedTarget(s)
        /\ IF Translated(s.route)
           THEN u.nonce = s.nonce /\ u.model = s.model       \* same conversation, same model
           ELSE u.sha = s.sha /\ u.len = s.len               \* byte for byte
-    /\ got' = (r :> u) @@ got
+    /\ got' = [x \in DOMAIN got \cup {r} |-> IF x = r THEN u ELSE got[x]]
     /\ UNCHANGED <<sent, scn>>
 
 \* GEN: one request description per initial state
